@@ -25,6 +25,9 @@ RULE = (
     '1-D ndarray of span length with its creation dtype, `values` is the stack in declaration order, `size` its element '
     'count; a single-variable assignment succeeds iff the shadow rule accepts it and then stores exactly the predicted '
     'array, otherwise it raises and the full snapshot is unchanged; under strict an unknown name raises AttributeError '
+    'Also: objects that start without any variable; a `construction` phase (dtype x default_value x initial values: each class '
+    'variable is the series add_variable would create); the `values` setter refuses arrays of other dimensions; the set of '
+    'existing attribute names is kept by the check itself (updates of existing names keep working under strict). '
     '(naming a case-variant variable) and adds nothing. Non-trivial: a failing assignment followed by a successful one, '
     'or an operand of rank != 1, or a dtype-crossing assignment. Distinct = distinct case JSON.'
 )
